@@ -298,7 +298,11 @@ Proof.
     apply andb_prop in Hin as [Hn Hall]. apply andb_prop in Hwf as [Hn1 Hw].
     assert (HF : Forall (fun v => in_type t v = true) vs) by (apply Forall_forall; rewrite forallb_forall in Hall; auto).
     destruct (arr_children t vs Hw IHt HF) as (F3 & HL & DS).
-    intros m d. cbn [venc]. cbn [is_dynamic] in Hd. cbn [is_dynamic]. rewrite Hd. cbn [negb enc].
+    intros m d. cbn [is_dynamic] in Hd.
+    assert (E : venc S (TSArr t n) (VList vs) m d =
+                venc_seq (head_first S) (map (fun x => (is_dynamic t, emb_static t, venc S t x)) vs) m d 0
+                         (static_size (TSArr t n))) by (cbn [venc is_dynamic]; rewrite Hd; reflexivity).
+    rewrite E. clear E. cbn [enc].
     set (all := map (fun x => (is_dynamic t, enc t x)) vs) in *.
     assert (Hss : static_size (TSArr t n) = head_len all) by (rewrite HL; cbn [static_size]; unfold emb_static; nia).
     rewrite Hss.
@@ -335,7 +339,7 @@ Proof.
       * transitivity (mreadz m1 d 32). { apply mreadz_ext. intros a Ha. apply Q4. lia. }
         pose proof (mreadz_mwrite m d (word (zlen vs))) as X. rewrite zlen_word in X. exact X.
       * rewrite mreadz_app by lia. unfold enc_seq. now rewrite Q2, Q3.
-    + intros a Ha. rewrite Hsz in Ha. rewrite Q4 by lia. unfold m1, mstore. apply mwrite_frame. rewrite zlen_word. lia.
+    + intros a Ha. rewrite Hsz in Ha. cbn [fst]. Show. rewrite Q4 by lia. unfold m1, mstore. apply mwrite_frame. rewrite zlen_word. lia.
   - (* tuple *)
     destruct (is_dynamic (TTuple ts)) eqn:Hd; [|apply venc_static; auto].
     destruct v as [| |vs]; try (cbn in Hin; discriminate). cbn [in_type wf_ty] in *.
